@@ -1684,6 +1684,30 @@ def groupby_sortedness(cx: Cx, ob: Ob, files: set | None = None, strict_only: bo
                     )
 
 
+def first_split(c, string, sep, api: str = API):
+    """Is the call ``c`` a split of ``string`` at the FIRST occurrence of ``sep``?
+
+    Returns (verdict, head index, tail index): verdict 'ok' | 'split-all' | 'last-occurrence' | 'args' | None."""
+    if op(c) != "call":
+        return None, None, None
+    if c[1] == ("func", f"{api}._split"):
+        good = c[2][:1] == (string,) and (dict(c[3]).get("sep") == sep or (len(c[2]) > 1 and c[2][1] == sep))
+        return ("ok" if good else "args"), 0, 1
+    if op(c[1]) != "attr" or c[1][1] != string:
+        return None, None, None
+    m = c[1][2]
+    if m in ("rpartition", "rsplit"):
+        return "last-occurrence", None, None
+    if m == "partition":
+        return ("ok" if c[2] == (sep,) and not c[3] else "args"), 0, 2
+    if m == "split":
+        if c[2][:1] != (sep,):
+            return "args", 0, 1
+        ms = c[2][1] if len(c[2]) > 1 else dict(c[3]).get("maxsplit")
+        return ("ok" if is_const(ms, 1) else "split-all"), 0, 1
+    return None, None, None
+
+
 def carried_into_outputs(cx: Cx, ob: Ob, roots: list[str], what: str) -> None:
     """Per-record emitters: in every loop over a converter's records (in the root functions and the package
     functions they call), what is yielded / appended / stored / written for one record must not contain a
